@@ -819,6 +819,8 @@ type Sample struct {
 	Model    map[string]string `json:"model"`
 	Observed map[string]string `json:"observed,omitempty"` // label -> hex bytes / decimal / bool under the model
 	Notes    []string          `json:"notes,omitempty"`
+	// the path ended in something the engine does not model; the model covers the path up to there
+	Unsupported bool `json:"unsupported_path,omitempty"`
 }
 
 func (e *Engine) runPath(solver *Solver, harness *ssa.Function, prefix []bool, wantSample bool) (res pathResult) {
@@ -864,6 +866,7 @@ func (e *Engine) runPath(solver *Solver, harness *ssa.Function, prefix []bool, w
 		case unsupportedErr:
 			res.status = "unsupported"
 			res.detail = p.msg
+			res.sample = r.unsupSample()
 		case exitPanic:
 			res.status = "unsupported"
 			res.detail = "os.Exit outside verifExitCode"
@@ -872,6 +875,7 @@ func (e *Engine) runPath(solver *Solver, harness *ssa.Function, prefix []bool, w
 			// is not decided; never a crash of the whole run and never a pass
 			res.status = "unsupported"
 			res.detail = fmt.Sprintf("engine limitation: %v", p)
+			res.sample = r.unsupSample()
 			if os.Getenv("VERIF_DEBUG_PANIC") != "" {
 				fmt.Fprintf(os.Stderr, "engine panic: %v\n%s\n", p, debug.Stack())
 			}
@@ -896,6 +900,25 @@ func (e *Engine) runPath(solver *Solver, harness *ssa.Function, prefix []bool, w
 }
 
 // sample asks the solver for a model of the path condition and evaluates the observed values under it.
+// unsupSample: a model of the path condition up to the point where the engine gave up (the first few such paths
+// of a job only). The path is not decided -- the check stays "not decided" -- but its inputs are run natively, and a
+// native assertion failure or crash is a concrete violation on the real build (concolic fallback, see check.go).
+func (r *Run) unsupSample() (s *Sample) {
+	if r.eng.unsupSamples.Add(1) > 16 {
+		return nil
+	}
+	defer func() {
+		if recover() != nil {
+			s = nil
+		}
+	}()
+	r.observed = nil // the engine's predictions end where it gave up: only the inputs matter
+	if s = r.sample(); s != nil {
+		s.Unsupported = true
+	}
+	return s
+}
+
 func (r *Run) sample() *Sample {
 	var extra []*Term
 	extra = append(extra, r.symbols...)
